@@ -64,6 +64,38 @@ end package;
 }
 
 #[test]
+fn subprogram_body_sees_itself_among_overloads_looked_up_earlier() {
+    let mut builder = LibraryBuilder::new();
+    builder.code(
+        "libname",
+        "
+package pkg is
+end package;
+
+package body pkg is
+  function f(a : integer) return integer is
+  begin
+    return a;
+  end function;
+
+  constant c : integer := f(1);
+
+  function f(a : bit) return integer is
+  begin
+    if a = '1' then
+      -- Recursive call of the overload that is being declared
+      return f('0');
+    end if;
+    return c;
+  end function;
+end package body;
+",
+    );
+    let diagnostics = builder.analyze();
+    check_no_diagnostics(&diagnostics);
+}
+
+#[test]
 fn immediate_region_takes_precedence_over_local_visibility() {
     let mut builder = LibraryBuilder::new();
     let code = builder.code(
